@@ -20,6 +20,7 @@ Record onode := mkOnode {
 (* ops as the harness prints them *)
 Inductive cop :=
 | CRead (i : nat) (off len : Z)
+| CPt (i : nat) (mbs workers : Z)
 | CPrefetch
 | CEvict (ks : list key)
 | CReadObs (i : nat) (off len : Z) (hits : list key).
@@ -29,6 +30,7 @@ Inductive cop :=
 Definition op_of (L : layer) (o : cop) : op :=
   match o with
   | CRead i off len => Read i off len
+  | CPt i mbs workers => Pt i mbs workers
   | CPrefetch => Prefetch
   | CEvict ks => Evict ks
   | CReadObs i off len hits => ReadI i off len (fun _ b c => if b then honest_on L hits else c)
